@@ -13,6 +13,12 @@ Law checked at *every* call item executed (statement): after the matching return
 length (mod 2^20) and S is what it was before the call; for IR..RETI also F and IMR; for CALL/CALLF F and IMR
 only when the whole callee is flag-/IMR-neutral by construction.  Entry: PC after the call step == callee
 address.  The first violation ends the program (later checks would only echo it).
+
+Round 4: the memory the system stack lives in is part of the case ("sloc", "map", "ctrl_S"): RAM overlay / memory
+card / host-delegated range / internal-RAM mirror alias with S at the region's edges, or S so small that frames
+wrap through address 0 (Rust cores only).  exec_program() re-runs a violating special-stack program with an
+ordinary RAM stack to decide whether the fingerprint gets a " stack:<kind>" suffix (attribution only).  Runtime
+programs may be preceded by an operation the runtime rejects ("reject") and re-run through bulk step(n) ("bulk").
 """
 
 from __future__ import annotations
@@ -375,6 +381,199 @@ def _forced_page(routines: List[Dict[str, Any]], idx: int, seen: Optional[set] =
     return None
 
 
+# ------------------------------------------------------------------------------------------------
+# where the system stack lives (round 4)
+# ------------------------------------------------------------------------------------------------
+# The machine bus guarantees byte granularity only: a multi-byte access is not the same thing as the sequence of
+# byte accesses when it straddles the end of an overlay, a 32 KiB boundary of the internal-RAM mirror window or
+# lies in a host-delegated range.  Frames are pushed byte by byte, so the pair law must hold wherever S points.
+MIRROR_LO, MIRROR_ID, MIRROR_HI = 0x80000, 0xB8000, 0xC0000  # memory.rs: INTERNAL_RAM_MIRROR_*, INTERNAL_RAM_START
+CARD_BASE = 0x40000
+CARD_SIZES = (8192, 16384, 32768, 65536)  # memory.rs: MEMORY_CARD_RANGES
+REGION_SIZES = (6, 0x20, 0x100, 0x400, 0x1000)
+REJECTS = ("card", "snap", "model", "ovl0", "step0")
+FRAME = {"CALL": 2, "CALLF": 3, "IR": 5}
+
+
+def _stack_depth(routines: List[Dict[str, Any]], idx: int = 0) -> int:
+    """Upper bound of the number of S-stack bytes below the routine's entry S that its intended path touches."""
+    r = routines[idx]
+    if r.get("hle"):
+        return 0
+    cur = mx = 0
+    for it in r["ins"]:
+        if it["k"] == "plain":
+            if it["b"] == "4f":
+                cur += 1
+                mx = max(mx, cur)
+            elif it["b"] == "5f":
+                cur -= 1
+        elif it["k"] == "cj":
+            mx = max(mx, cur + 3)
+        elif it["k"] == "call":
+            mx = max(mx, cur + FRAME[it["flavor"]] + _stack_depth(routines, it["callee"]))
+    return mx
+
+
+def _overlaps(used: List[Tuple[int, int]], lo: int, hi: int) -> bool:
+    return any(lo < b and a < hi for a, b in used)
+
+
+def mirror_phys(a: int) -> int:
+    return MIRROR_ID + (a & 0x7FFF) if MIRROR_LO <= a < MIRROR_HI else a
+
+
+def _reserve_stack(used: List[Tuple[int, int]], v: int) -> bool:
+    """Reserve [v-0x80, v+0x20) and, for addresses inside the mirror window, the cells they alias."""
+    if not _free(used, v - 0x80, v + 0x20):
+        return False
+    phys = sorted({mirror_phys(a) for a in range(v - 0x80, v + 0x20)} - set(range(v - 0x80, v + 0x20)))
+    runs: List[Tuple[int, int]] = []
+    for a in phys:
+        if runs and runs[-1][1] == a:
+            runs[-1] = (runs[-1][0], a + 1)
+        else:
+            runs.append((a, a + 1))
+    if any(_overlaps(used, lo, hi) for lo, hi in runs):
+        return False
+    used.append((v - 0x80, v + 0x20))
+    used.extend(runs)
+    return True
+
+
+def _plain_s(st: S.Stream, rt: bool, pages: Tuple[int, ...]) -> Tuple[int, str]:
+    if st.chance(1, 4):
+        pg = (st.choice(pages) + 1) if rt else 1 + st.below(14)
+        return (pg << 16) + st.below(6), "S:cross-page"  # frames cross a 64 KiB boundary
+    if not rt:
+        return 0x1000 + st.below(0xFD000), "S:interior"
+    if st.chance(1, 3):
+        return 0xB8100 + st.below(0x7E00), "S:interior"
+    return (st.choice(pages) << 16) + 0x1000 + st.below(0xE000), "S:interior"
+
+
+def _edge_s(st: S.Stream, lo: int, hi: int) -> Tuple[int, str]:
+    """S relative to a region [lo, hi]: frames straddle its end / its start / lie inside."""
+    sel = st.below(8)
+    if sel < 4:
+        return hi + 1 + st.below(8), "end"
+    if sel < 6 or hi - lo < 0xC0:
+        return lo + st.below(8), "start"
+    return lo + 0x60 + st.below(hi - lo - 0x80), "inside"
+
+
+def _place_stack(st: S.Stream, rt: bool, pages: Tuple[int, ...], used: List[Tuple[int, int]], depth: int,
+                 uses_ir: bool) -> Optional[Tuple[int, List[str], Optional[Dict[str, Any]], Optional[str],
+                                                  Optional[int]]]:
+    """-> (S, labels, memory-map configuration or None, stack-location kind or None, control S or None)."""
+    sel = st.below(16)
+    kind = None
+    if rt:
+        kind = (None, "ovl", "host", "mirror", "wrap")[0 if sel < 6 else 1 if sel < 9 else 2 if sel < 12
+                                                        else 3 if sel < 15 else 4]
+    elif sel < 2:
+        kind = "wrap"
+    if kind == "wrap":
+        # S so small that frames wrap through address 0 to the top of the 20-bit space; with a software
+        # interrupt in the program the deepest byte must stay above the vector at 0xFFFFA-0xFFFFC
+        lo_s = max(1, depth - 3) if uses_ir else 1
+        if depth < 2 or lo_s > depth - 1 or _overlaps(used, 0, 0x60) \
+                or (not uses_ir and _overlaps(used, 0xFFF80, 0x100000)):
+            kind = None
+        else:
+            v = lo_s + st.below(depth - lo_s)
+            used.append((0, 0x60))
+            used.append((0xFFF80, 0x100000))
+            ctrl = _ctrl_s(st, rt, pages, used)
+            return (v, ["S:wrap", "stack:wrap"], None, "wrap", ctrl) if ctrl is not None else None
+    for _ in range(16):
+        if kind is None:
+            v, cls = _plain_s(st, rt, pages)
+            if _reserve_stack(used, v):
+                return v, [cls, "stack:plain"], None, None, None
+            continue
+        smap: Dict[str, Any] = {}
+        if kind == "mirror":
+            msel = st.below(8)
+            if msel < 4:
+                v, sub = MIRROR_LO + 0x8000 * (1 + st.below(6)) + st.below(8), "32k"
+            elif msel == 4:
+                v, sub = MIRROR_LO + st.below(8), "start"
+            elif msel == 5:
+                v, sub = MIRROR_ID + st.below(8), "identity"
+            elif msel == 6:
+                v, sub = MIRROR_HI + st.below(8), "end"
+            else:
+                v, sub = MIRROR_LO + 0x100 + st.below(MIRROR_ID - MIRROR_LO - 0x200), "inside"
+            region: Optional[Tuple[int, int]] = None
+        else:
+            if kind == "ovl" and st.chance(1, 4):
+                size = st.choice(CARD_SIZES)
+                lo, sub0 = CARD_BASE, "card"
+                smap["card"] = size
+            else:
+                size = st.choice(REGION_SIZES) + st.below(16)
+                lo, sub0 = (st.choice(pages) << 16) + 0x1000 + st.below(0xC000), kind
+            hi = lo + size - 1
+            if kind == "host":
+                smap["host"] = [[lo, hi]]
+            elif "card" not in smap:
+                smap["overlays"] = [[lo, size, "vh_c05_ram"]]
+            v, edge = _edge_s(st, lo, hi)
+            sub = f"{sub0}-{edge}" if sub0 == "card" else edge
+            region = (lo - 0x100, hi + 0x101)
+        trial = list(used)
+        if region is not None:
+            if not _free(trial, region[0], region[1]):
+                continue
+            trial.append(region)
+            if not _reserve_stack_in(trial, v):
+                continue
+        elif not _reserve_stack(trial, v):
+            continue
+        if st.chance(1, 4):
+            # an unrelated region elsewhere in the map (never touched by the program)
+            dlo = (st.choice(pages) << 16) + 0x1000 + st.below(0xC000)
+            dsz = st.choice(REGION_SIZES) + st.below(16)
+            if _free(trial, dlo - 0x100, dlo + dsz + 0x100):
+                trial.append((dlo - 0x100, dlo + dsz + 0x100))
+                if st.chance(1, 2):
+                    smap.setdefault("host", []).append([dlo, dlo + dsz - 1])
+                else:
+                    smap.setdefault("overlays", []).append([dlo, dsz, "vh_c05_decoy"])
+        ctrl = _ctrl_s(st, rt, pages, trial)
+        if ctrl is None:
+            continue
+        used[:] = trial
+        return v, [f"S:{kind}-{sub}", f"stack:{kind}"], (smap or None), kind, ctrl
+    return None
+
+
+def _reserve_stack_in(used: List[Tuple[int, int]], v: int) -> bool:
+    """The stack neighbourhood lies inside / next to a region already reserved as a whole: only the part outside
+    the region's reservation has to be free; nothing else is ever placed inside the region."""
+    lo, hi = v - 0x80, v + 0x20
+    reg = used[-1]
+    for a, b in used[:-1]:
+        if lo < b and a < hi:
+            return False
+    if lo < 0x40 or hi > 0x100000:
+        return False
+    if not (reg[0] <= lo and hi <= reg[1]):
+        used.append((lo, hi))
+    return True
+
+
+def _ctrl_s(st: S.Stream, rt: bool, pages: Tuple[int, ...], used: List[Tuple[int, int]]) -> Optional[int]:
+    """A plain interior stack location for the control run (same program, ordinary RAM stack)."""
+    for _ in range(16):
+        v = (st.choice(pages) << 16) + 0x1000 + st.below(0xE000) if rt else 0x1000 + st.below(0xFD000)
+        if _free(used, v - 0x80, v + 0x20):
+            used.append((v - 0x80, v + 0x20))
+            return v
+    return None
+
+
 def gen_program(st: S.Stream, thorough: bool = False, profile: str = "full") -> Optional[Dict[str, Any]]:
     """profile "full": any page 1..14, every placement class (run on "py" and "rs");
     profile "rt": plainly mapped memory of the machine runtime, SIO stub on (with hle callees) or off."""
@@ -402,33 +601,36 @@ def gen_program(st: S.Stream, thorough: bool = False, profile: str = "full") -> 
     regs: Dict[str, int] = {"BA": st.word(), "I": st.word(), "X": st.pointer()[0], "Y": st.pointer()[0],
                             "F": st.u32() & 0xFF}
     labels: List[str] = ["shape:chain" if chain else "shape:tree"]
-    for name in ("S", "U"):
-        for _ in range(16):
-            if name == "S" and st.chance(1, 4):
-                pg = (st.choice(pages) + 1) if rt else 1 + st.below(14)
-                v = (pg << 16) + st.below(6)  # frames cross a 64 KiB boundary
-                cls = "S:cross-page"
-            else:
-                if not rt:
-                    v = 0x1000 + st.below(0xFD000)
-                elif st.chance(1, 3):
-                    v = 0xB8100 + st.below(0x7E00)
-                else:
-                    v = (st.choice(pages) << 16) + 0x1000 + st.below(0xE000)
-                cls = f"{name}:interior"
-            if _free(used, v - 0x80, v + 0x20):
-                used.append((v - 0x80, v + 0x20))
-                regs[name] = v
-                if name == "S":
-                    labels.append(cls)
-                break
+    placed = _place_stack(st, rt, pages, used, _stack_depth(routines), uses_ir)
+    if placed is None:
+        return None
+    regs["S"], s_labels, smap, sloc, ctrl_s = placed
+    labels += s_labels
+    if sloc is not None and not st.chance(1, 4):
+        # `MV [--S],BA` / `MV [--S],X` of a computed jump are multi-byte stores: in byte-granular memory they are
+        # C11's subject (such programs end unjudged as cj-astray); keep them in 1/4 of the special-stack programs
+        for r in routines:
+            r["ins"] = [{"k": "plain", "b": "00", "fl": True, "im": True} if it["k"] == "cj" else it
+                        for it in r["ins"]]
+        labels.append("cj-replaced-by-nop")
+    for _ in range(16):
+        if not rt:
+            v = 0x1000 + st.below(0xFD000)
+        elif st.chance(1, 3):
+            v = 0xB8100 + st.below(0x7E00)
         else:
-            return None
+            v = (st.choice(pages) << 16) + 0x1000 + st.below(0xE000)
+        if _free(used, v - 0x80, v + 0x20):
+            used.append((v - 0x80, v + 0x20))
+            regs["U"] = v
+            break
+    else:
+        return None
     # call site
     site_classes = ["interior", "interior", "interior", "site-ends-at-page-end", "site-straddle", "page-start",
                     "site-page-end"]
     forced = _forced_page(routines, 0)
-    if not uses_ir and not rt and forced is None:
+    if not uses_ir and not rt and forced is None and sloc != "wrap":
         site_classes.append("site-top")
     p = _place_routine(st, routine_size(routines[0]), used, forced, tuple(site_classes), pages)
     if p is None:
@@ -472,9 +674,21 @@ def gen_program(st: S.Stream, thorough: bool = False, profile: str = "full") -> 
             "imem": [[S.BP, st.byte()], [S.PX, st.byte()], [S.PY, st.byte()]],
             "routines": [{k: v for k, v in (("addr", r["addr"]), ("ins", r["ins"]), ("hle", r.get("hle"))) if
                           v is not None} for r in routines], "gen_labels": labels}
+    if sloc is not None:
+        case["sloc"] = sloc
+        case["ctrl_S"] = ctrl_s
+        if smap is not None:
+            case["map"] = smap
+        if sloc == "wrap" and not rt:
+            case["cores"] = ["rs"]  # Python core: push and pop of a frame wrapping through 0 address different
+            #                         cells of the harness memory model (notes, "False alarms met") - not judged
     if rt:
         case["core"] = "rt"
         case["sio"] = bool(sio)
+        if st.chance(1, 4):
+            case["reject"] = st.choice(REJECTS)
+        if st.chance(1, 3):
+            case["bulk"] = sorted(st.below(1000) for _ in range(st.below(3)))
     return case
 
 
@@ -670,13 +884,43 @@ def _rt_call(cases: List[Dict[str, Any]]) -> List[Dict[str, Any]]:
     return resp["results"]
 
 
-def _rt_trace(case: Dict[str, Any], memlist: List[List[int]], n: int) -> List[Any]:
-    r = _rt_call([{"sio": bool(case.get("sio")), "regs": {k: int(v) for k, v in case["regs"].items()},
-                   "mem": memlist, "steps": n}])[0]
+def _rt_trace(case: Dict[str, Any], memlist: List[List[int]], n: int, chunks: Optional[List[int]] = None,
+              info: Optional[Dict[str, Any]] = None) -> List[Any]:
+    req: Dict[str, Any] = {"sio": bool(case.get("sio")), "regs": {k: int(v) for k, v in case["regs"].items()},
+                           "mem": memlist, "steps": n}
+    if case.get("map"):
+        req["map"] = case["map"]
+    if case.get("reject"):
+        req["reject"] = case["reject"]
+    if chunks is not None:
+        req["chunks"] = chunks
+    r = _rt_call([req])[0]
+    if info is not None:
+        info.update(host_rw=r.get("host_rw"), ovl_rw=r.get("ovl_rw"), rejected=r.get("rejected"))
+    if case.get("reject") and r.get("rejected") is not True:
+        # the operation was not rejected/ignored as assumed: a different machine, nothing is judged
+        return [f"pre-program operation {case['reject']!r} was not rejected"]
     out: List[Any] = [(int(t[0]) & M20, int(t[1]), int(t[2]) & 0xFF, int(t[3])) for t in r["trace"]]
     if r.get("err"):
         out.append(str(r["err"]))
     return out
+
+
+def bulk_chunks(case: Dict[str, Any], n: int) -> List[int]:
+    """Split n steps at the case's per-mille cut points into 1-3 step(k) calls (k >= 1)."""
+    cuts = sorted({max(1, min(n - 1, (n * int(c)) // 1000)) for c in case.get("bulk") or []}) if n > 1 else []
+    out, prev = [], 0
+    for c in cuts + [n]:
+        out.append(c - prev)
+        prev = c
+    return out
+
+
+def control_case(case: Dict[str, Any]) -> Dict[str, Any]:
+    """The same program with its stack in ordinary RAM (attribution only, never decides what is a violation)."""
+    c = {k: v for k, v in case.items() if k not in ("map", "sloc", "ctrl_S")}
+    c["regs"] = {**case["regs"], "S": int(case["ctrl_S"])}
+    return c
 
 
 def rt_close() -> None:
@@ -707,18 +951,46 @@ def rt_self_test() -> None:
 
 
 def exec_program(case: Dict[str, Any]) -> Dict[str, Any]:
+    """Run + judge one program.  If it violates the law with its stack in special memory, the same program is run
+    once more with an ordinary RAM stack: a fingerprint that persists there keeps its plain `where`, otherwise the
+    stack-location kind is appended (one fingerprint per root cause; the control never decides about a violation)."""
+    res = _exec_program(case)
+    if res["viol"] and case.get("sloc") and case.get("ctrl_S") is not None:
+        try:
+            ckeys = {v.key() for v in _exec_program(control_case(case))["viol"]}
+        except HarnessError:
+            ckeys = set()
+        for v in res["viol"]:
+            if v.key() not in ckeys:
+                v.where += f" stack:{case['sloc']}"
+                res["labels"].append("violation-needs-stack-location")
+    return res
+
+
+def _exec_program(case: Dict[str, Any]) -> Dict[str, Any]:
     core = case.get("core", "py")
     tag = CORE_TAG[core]
     memlist, lay = layout_of(case)
+    rt_info: Dict[str, Any] = {}
     if core == "py":
         m: Any = _PyMachine(case, memlist)
     else:
         n = expected_steps(case)
-        m = _TraceMachine(case, _rs_trace(case, memlist, n) if core == "rs" else _rt_trace(case, memlist, n))
+        m = _TraceMachine(case, _rs_trace(case, memlist, n) if core == "rs"
+                          else _rt_trace(case, memlist, n, info=rt_info))
     res: Dict[str, Any] = {"viol": [], "labels": list(case.get("gen_labels", [])) + [f"core:{core}"], "steps": 0,
                            "pairs": 0, "top": "", "key": ""}
     if core == "rt":
         res["labels"].append("sio:on" if case.get("sio") else "sio:off")
+        if case.get("reject"):
+            res["labels"].append(f"after-rejected:{case['reject']}")
+        if (rt_info.get("host_rw") or [0, 0])[1]:
+            res["labels"].append("stack-io:host-written")
+        if (rt_info.get("host_rw") or [0, 0])[0]:
+            res["labels"].append("stack-io:host-read")
+        if (rt_info.get("ovl_rw") or [0, 0])[1]:
+            res["labels"].append("stack-io:overlay-written")
+    top_law: Dict[str, Any] = {}
     routines = case["routines"]
     pc = m.pc
     open_calls: List[str] = []
@@ -776,6 +1048,9 @@ def exec_program(case: Dict[str, Any]) -> Dict[str, Any]:
             imr0 = m.imr()
             res["labels"] += [f"pair:{flavor}", f"site:{addr_class(a, ln)}", f"site-ret-addr:{site}",
                               f"ret:{retc}", f"retaddr:{addr_class(ra, rl)}", f"depth:{depth}"]
+            if case.get("sloc"):
+                fr = frame_class(case, s0, FRAME[flavor])
+                res["labels"].append(f"frame:{flavor}:{case['sloc']}:{fr}")
             kinds = "".join({"CALL": "n", "CALLF": "f", "IR": "i"}[k] for k in open_calls)
             if "n" in kinds and "f" in kinds:
                 res["labels"].append("open:near+far")
@@ -837,6 +1112,9 @@ def exec_program(case: Dict[str, Any]) -> Dict[str, Any]:
                     sym = "IMR not restored: only bit 7 (IRM) differs" if (i1 ^ imr0) == 0x80 else "IMR not restored"
                     res["viol"].append(Violation("pair:IMR", where, sym, case, detail))
                     raise _Abort()
+            if depth == 0:
+                top_law.update(where=where, pc=exp, s=s0, f=f0 if check_f else None, imr=imr0 if check_i else None,
+                               what=f"[{core}] {flavor} at {a:#x} (len {ln}) -> {dest:#x}, {rname} at {ra:#x}")
 
     top = lay[0][0][2]
     res["top"] = top["flavor"]
@@ -845,14 +1123,68 @@ def exec_program(case: Dict[str, Any]) -> Dict[str, Any]:
     a0, l0, _ = lay[0][0]
     ra0, rl0, _ = ret_info(top["callee"])
     res["key"] = (f"{core}{'+sio' if case.get('sio') else ''}:{top['flavor']}:{addr_class(a0, l0)}:"
-                  f"{addr_class(ra0, rl0)}:{'x' if 'S:cross-page' in res['labels'] else 'i'}:{body_hash}")
+                  f"{addr_class(ra0, rl0)}:{'x' if 'S:cross-page' in res['labels'] else case.get('sloc') or 'i'}:"
+                  f"{body_hash}")
     try:
         run_routine(0, 0)
     except _Abort:
         pass
     if "err" in res:
         res["labels"].append("python-exception" if core == "py" else f"{core}-error")
+    if core == "rt" and case.get("bulk") is not None and top_law and not res["viol"] and "err" not in res \
+            and not res.get("astray"):
+        _judge_bulk(case, memlist, top_law, res)
     return res
+
+
+def _judge_bulk(case: Dict[str, Any], memlist: List[List[int]], law: Dict[str, Any], res: Dict[str, Any]) -> None:
+    """The same program through bulk CoreRuntime::step(k) calls: the state after the last chunk is the state
+    after the top-level call's matching return, so the pair law applies to it as it stands."""
+    n = expected_steps(case)
+    chunks = bulk_chunks(case, n)
+    tr = _rt_trace(case, memlist, n, chunks=chunks)
+    res["labels"].append(f"bulk:chunks-{len(chunks)}")
+    if len(tr) != len(chunks) or isinstance(tr[-1], str):
+        res["labels"].append("rt-bulk-error")
+        return
+    pc, s1, f1, i1 = tr[-1]
+    where = law["where"] + " [bulk step(n)]"
+    detail = (f"{law['what']}: after step({'+'.join(map(str, chunks))}) PC {pc:#x} (expected {law['pc']:#x}); "
+              f"S {law['s']:#x}->{s1:#x}; F ->{f1:#04x}; IMR ->{i1:#04x}")
+    if pc != law["pc"]:
+        res["viol"].append(Violation("pair:resume", where, "resume address: " + diffclass(law["pc"], pc), case, detail))
+    elif s1 != law["s"]:
+        d = s20(s1 - law["s"])
+        res["viol"].append(Violation("pair:S", where, f"S after return = S before call{d:+d}" if abs(d) <= 8
+                                     else "S not restored (unrelated)", case, detail))
+    elif law["f"] is not None and f1 != law["f"]:
+        bits = [nm for nm, mk in (("C", 1), ("Z", 2), ("high", 0xFC)) if (law["f"] ^ f1) & mk]
+        res["viol"].append(Violation("pair:F", where, "F not restored: " + "+".join(bits), case, detail))
+    elif law["imr"] is not None and i1 != law["imr"]:
+        sym = "IMR not restored: only bit 7 (IRM) differs" if (i1 ^ law["imr"]) == 0x80 else "IMR not restored"
+        res["viol"].append(Violation("pair:IMR", where, sym, case, detail))
+
+
+def frame_class(case: Dict[str, Any], s0: int, size: int) -> str:
+    """How the frame [s0-size, s0) lies relative to the boundaries of the special memory the stack lives in."""
+    cells = [(s0 - 1 - i) & M20 for i in range(size)]
+    kind = case.get("sloc")
+    if kind == "wrap":
+        return "wraps" if min(cells) < 0x100 and max(cells) > M20 - 0x100 else "no-wrap"
+    if kind == "mirror":
+        inside = [MIRROR_LO <= c < MIRROR_ID for c in cells]
+        if len({c >> 15 for c in cells}) > 1:
+            return "straddles-32k" if all(MIRROR_LO <= c < MIRROR_HI for c in cells) else "straddles-window-edge"
+        return "alias" if all(inside) else "outside-alias"
+    mp = case.get("map") or {}
+    if kind == "host":
+        lo, hi = mp["host"][0]
+    elif mp.get("card"):
+        lo, hi = CARD_BASE, CARD_BASE + int(mp["card"]) - 1
+    else:
+        lo, hi = int(mp["overlays"][0][0]), int(mp["overlays"][0][0]) + int(mp["overlays"][0][1]) - 1
+    ins = [lo <= c <= hi for c in cells]
+    return "inside" if all(ins) else "outside" if not any(ins) else "straddles"
 
 
 # ------------------------------------------------------------------------------------------------
